@@ -342,6 +342,38 @@ class Body:
                         push_op(t["args"][0], rest)
         return list(out.values())
 
+    def const_value(self, op, depth=0):
+        """evaluate an integer operand that is a constant or a constant expression (+,-,*,/ of constants through
+        single-definition temporaries); returns int or None.  Static constant folding only."""
+        if depth > 12:
+            return None
+        if op[0] == "k":
+            v = op[1].get("v")
+            try:
+                return int(v)
+            except (TypeError, ValueError):
+                return None
+        place = op[1]
+        proj = [x for x in place[1:] if x != "*"]
+        ds = [d for d in self.defs(place[0])]
+        if len(ds) != 1 or ds[0][1] != "=" or len(ds[0][2]["p"]) != 1:
+            return None
+        rv = ds[0][2]["rv"]
+        if rv["k"] in ("use", "cast") and not proj:
+            return self.const_value(rv["o"], depth + 1)
+        if rv["k"] == "bin" and (not proj or proj == [".0"]):
+            a = self.const_value(rv["a"], depth + 1)
+            b = self.const_value(rv["b"], depth + 1)
+            if a is None or b is None:
+                return None
+            op_ = rv["op"].replace("WithOverflow", "").replace("Unchecked", "")
+            try:
+                return {"Add": a + b, "Sub": a - b, "Mul": a * b, "Div": a // b if b else None, "Rem": a % b if b else None,
+                        "Shl": a << b, "Shr": a >> b, "BitAnd": a & b, "BitOr": a | b}.get(op_)
+            except Exception:
+                return None
+        return None
+
     def origin_calls(self, op):
         return [a for a in self.origins(op) if a.kind == "call"]
 
